@@ -22,7 +22,8 @@ class VariableBoundModel(object):
     def isEmpty(self):
         if len(self.domain.range_l) == 0:
             return True
-        elif len(self.domain.range_l) == 1 and (self.domain.range_l[0][1]-self.domain.range_l[0][0]) == 0:
+        elif len(self.domain.range_l) == 1 and (self.domain.range_l[0][1]-self.domain.range_l[0][0]) <= 0:
+            # Single value, or a range that propagation has inverted
             return True
         else:
             return False
